@@ -12,7 +12,7 @@ RULE = ("every case is executed on hash_based / kdtree and on nearest_neighbor; 
         "reference {(i,j,lev)<=k} and the engines' sets with each other (differential); non-trivial = expected set non-empty")
 ASSUMPTIONS = ["hash_based is exponential in max_edits: k=2 up to U(.,4)/(thorough U(.,5) one alphabet), k=3 only on U(.,2)",
                "kdtree radius-boundary family uses homopolymer blocks so that the composition vectors differ by exactly sqrt(2)*k"]
-REQUIRED_CLASSES = {"all": ["bin-straddling-alphabet", "radius-boundary-pair", "duplicate-at-distance-0", "has-empty-string", "size-boundary-family", "equal-length-pair-needs-indels"]}
+REQUIRED_CLASSES = {"all": ["bin-straddling-alphabet", "radius-boundary-pair", "duplicate-at-distance-0", "has-empty-string", "size-boundary-family", "equal-length-pair-needs-indels", "long-anagram-pair"]}
 MIN_OUTCOMES = 10
 
 ALPHAS = ("ACD", "DEF", "WYA")   # straddle kdtree composition bins at compression 1, 2, 3 (aminoacids = ACDEFGHIKLMNPQRSTVWY)
@@ -42,8 +42,10 @@ def spaces(tier):
             yield ("list", seqs)
 
     def gen_size():
-        for N in (255, 256, 257, 1023, 1024, 1025, 2049) + (() if q else (4097, 65560)):
+        for N in (255, 256, 257, 1001, 1023, 1024, 1025, 2049) + (() if q else (4097, 10001, 65560, 100003)):
             yield ("sizefam", "kdtree", N, 1)
+        for n in (126, 127, 128, 129, 200):
+            yield ("anagram", n)
         yield ("sizefam", "kdtree", 1025, 2)
         for N in (257, 1025):
             yield ("sizefam", "hash_based", N, 1)
@@ -64,7 +66,7 @@ def spaces(tier):
     return [
         Space("kdtree-universes", gen_kd, "U(alphabet,5|7) for alphabets %s, k in 1..5, plus the radius-boundary family x^k.C vs y^k.C, k=1..12" % (ALPHAS,), per_case=True),
         Space("hash_based-universes", gen_hash, "U(.,5|6) k=1; U(.,3|4) k=2; U(.,2) k=3", per_case=True),
-        Space("size-boundary-family", gen_size, "collections of 255..2049 (thorough: 4097, 65560) strings with a clonal family at the positions next to 0, 256, 1024, 65536 and the end; kdtree (k=1,2) and hash_based (k=1)", per_case=True),
+        Space("size-boundary-family", gen_size, "collections of 255..2049 incl. 1001 (thorough: 4097, 10001, 65560, 100003) strings; block-swap anagram pairs of 2x126..2x200 residues (distance exactly 2n) with a clonal family at the positions next to 0, 256, 1024, 65536 and the end; kdtree (k=1,2) and hash_based (k=1)", per_case=True),
         Space("equal-length-pairs", gen_eqlen, "every ordered pair of 4-letter strings over ACD as a 2-element collection (one case = one first string against all 81) on hash_based and kdtree, k in 1..2"),
         Space("all-lists-three-engines", gen_lists, "Lists(U(AC,2),3|4) x k in 1..2 on hash_based, kdtree, nearest_neighbor (k=3: kdtree only)"),
         Space("cdr3-edit-ball-families", gen_family, "complete 20-letter one-edit ball around %d CDR3 seeds: kdtree k in 1..2, hash_based k=1" % len(CDR3_SEEDS), per_case=True),
@@ -128,6 +130,15 @@ def check_case(case, acc):
         seqs, pos = E.size_family(N)
         acc.cls("size-boundary-family")
         compare(acc, case, eng, seqs, k, neighbors_within(seqs, k), False)
+    elif kind == "anagram":
+        # block swaps: identical composition (always KD-tree candidates of each other) at a large, exactly known distance
+        n = case[1]
+        acc.cls("long-anagram-pair")
+        seqs = ["A" * n + "C" * n, "C" * n + "A" * n, "A" * n + "C" * (n - 1) + "A", "A" * (n - 1) + "CA" + "C" * (n - 1)]
+        for k in (1, 2, 3):
+            exp = neighbors_within(seqs, k)
+            for eng in ("kdtree",) + (("hash_based",) if k == 1 else ()):
+                compare(acc, ("one", eng, tuple(seqs), k), eng, seqs, k, exp, True)
     elif kind == "eqlen":
         a = case[1]
         for t in itertools.product("ACD", repeat=4):
